@@ -59,7 +59,8 @@ META = {
                     "a parent that is not present (ghost) contributes the NULL tree"],
     "rule": ("random DAGs of 2-12 revisions (merges, criss-cross, ghosts, extra roots) x trees over <= 2 directories and <= 4 "
              "files with take-other merges, reverts, identical parallel changes, cherry-picks, renames, moves, kind and exec "
-             "changes, delete/re-add; each history in 3 formats; non-trivial = the history has a merge that records a per-file "
+             "changes, delete/re-add; every 5th history is a directed octopus history (one-file commits on 3-4 branches, "
+             "merge of the tips in random order taking each file wholesale from one parent); each history in 3 formats; non-trivial = the history has a merge that records a per-file "
              "merge or carries an entry over from a non-left parent"),
 }
 SHARD = 60
@@ -202,6 +203,13 @@ FIXED = [
     ("octopus-dup", [[], [0], [1], [1], [0], [4, 2, 3], [4, 3, 2]],
      [_R(_F(3, 0)), _R(_F(3, 1)), _R(_F(3, 1), _F(4, 0)), _R(_F(3, 1), _F(5, 0)), _R(_F(3, 0), _F(6, 0)),
       _R(_F(3, 1), _F(4, 0), _F(5, 0), _F(6, 0)), _R(_F(3, 2), _F(4, 0), _F(5, 0), _F(6, 0))]),
+    # octopus merge whose unique per-file head sits in the THIRD parent, whose tip (3) is not the revision
+    # that last changed the file (2): candidates [0, 1, 2] -> head 2, entry found under its own revision,
+    # carried over; 6: four parents, head in the last one; 7: head in the second of three
+    ("octopus-third", [[], [0], [1], [2], [0], [4, 1, 3], [4, 1, 0, 3], [4, 3, 1]],
+     [_R(_F(3, 0), _F(4, 0)), _R(_F(3, 1), _F(4, 0)), _R(_F(3, 2), _F(4, 0)), _R(_F(3, 2), _F(4, 1)),
+      _R(_F(3, 0), _F(4, 0), _F(5, 0)), _R(_F(3, 2), _F(4, 1), _F(5, 0)), _R(_F(3, 2), _F(4, 1), _F(5, 0)),
+      _R(_F(3, 2), _F(4, 1), _F(5, 0))]),
     # three parents, one equal to the basis
     ("octopus", [[], [0], [0], [0], [1, 2, 3]],
      [_R(_F(3, 0), _F(4, 0)), _R(_F(3, 1), _F(4, 0)), _R(_F(3, 0), _F(4, 1)), _R(_F(3, 0), _F(4, 0)),
@@ -217,11 +225,65 @@ def corpus():
     return [_case(g, trees, fmt, tag) for tag, g, trees in FIXED for fmt in FORMATS]
 
 
+def gen_octopus(rng):
+    """A directed history: several branches whose commits each touch ONE file (so branch tips are
+    usually not the revision that last changed the other files), branches may fork from inside an
+    earlier branch (per-file ancestry between the parents' versions), then an octopus merge of 3-4
+    tips in random order whose tree takes every file wholesale from one of the parents (often the
+    last one): the unique per-file head may sit in any parent position and is then carried over."""
+    files = list(FILES[:rng.choice([2, 3, 4])])
+    g = [[]]
+    trees = [_fix([_F(f, 0) for f in files])]
+    nb = rng.choice([3, 3, 4])
+    tips, prev_branch = [], [0]
+    for b in range(nb):
+        at = 0 if (b == 0 or rng.random() < 0.5) else rng.choice(prev_branch)
+        branch = []
+        for _ in range(rng.choice([1, 2, 2, 3])):
+            if len(g) >= 10:
+                break
+            cur = [list(e) for e in trees[at]]
+            e = rng.choice([x for x in cur if x[0] in files] or cur[1:] or cur)
+            w = rng.randrange(4)
+            if e[0] == 0:
+                pass
+            elif w == 0:
+                e[1] = 1 - e[1]
+            elif w == 1 and e[3] == "file":
+                e[4] = not e[4]
+            else:
+                e[5] = (e[5] + 1 + rng.randrange(2)) % 3
+            g.append([at])
+            trees.append(_fix(cur))
+            at = len(g) - 1
+            branch.append(at)
+        if branch:
+            tips.append(at)
+            prev_branch = branch
+    tips = list(dict.fromkeys(tips))
+    if len(tips) >= 2:
+        for _ in range(rng.choice([1, 1, 2])):
+            ps = list(tips)
+            rng.shuffle(ps)
+            ptrees = [{e[0]: e for e in trees[p]} for p in ps]
+            cur = {}
+            for f in [0] + files:
+                src = ptrees[-1] if rng.random() < 0.5 else rng.choice(ptrees)
+                if f in src:
+                    cur[f] = list(src[f])
+            g.append(ps)
+            trees.append(_fix(list(cur.values())))
+    return g, trees
+
+
 def cases(rng, tier):
     n_hist = 200 if tier == "quick" else 1500
-    for _ in range(n_hist):
-        g = daglib.gen_dag(rng, rng.randrange(2, 13), p_merge=0.45)
-        trees = gen_trees(rng, g, nfiles=rng.choice([1, 2, 4, 4]))
+    for k in range(n_hist):
+        if k % 5 == 4:
+            g, trees = gen_octopus(rng)
+        else:
+            g = daglib.gen_dag(rng, rng.randrange(2, 13), p_merge=0.45)
+            trees = gen_trees(rng, g, nfiles=rng.choice([1, 2, 4, 4]))
         for fmt in FORMATS:
             yield _case(g, trees, fmt)
 
